@@ -313,7 +313,58 @@ def replay(r):
         m.add_data(src, 2, 3, None, None, True, b"")
         return m.hash
     cands = [0, 1, 2, 11, 12, 21, 3, 10, 100, 112]
+    # wide key fields (MMSI, 32-bit identifiers): values that agree in their leading digits, and values near the top of the field
+    wide = [244123456, 244123457, 1000000, 1000001, 999999]
     seen = {}
+    if keys and max(f.len for f in keys) >= 20:
+        for i_, f in enumerate(keys):
+            if f.len < 20:
+                continue
+            for v in wide + [(1 << f.len) - 3, (1 << f.len) - 4]:
+                vals = [1] * len(keys)
+                vals[i_] = v & ((1 << f.len) - 1)
+                hsh = hash_of(vals)
+                if hsh is None:
+                    continue
+                if hsh in seen and seen[hsh] != vals:
+                    return True, "keys %r and %r share hash %s" % (seen[hsh], vals, hsh)
+                seen[hsh] = vals
+    # another definition of the same PGN with the same key values must not share the hash (both decode orders)
+    sibs = [q for q in D.groups[p.pgn] if q is not p and [g for g in q.fields if g.key and g.fixed]]
+    for q in sibs[:6]:
+        qfn = N.pgns.__dict__.get("decode_pgn_%s" % D.func_suffix(q))
+        if qfn is None:
+            continue
+        qkeys = [g for g in q.fields if g.key and g.fixed]
+        if len(qkeys) != len(keys):
+            continue
+        qbase = 0
+        for g in q.fields:
+            if g.fixed:
+                qbase |= base_raw(g) << g.off
+        for vals in ([1] * len(keys), [3] * len(keys)):
+            # a value both definitions accept: their own match value where the key field is a match field
+            vq = [int(g.match) if g.match is not None else v for g, v in zip(qkeys, vals)]
+            vp = [int(g.match) if g.match is not None else v for g, v in zip(keys, vals)]
+            if vq != vp:
+                continue
+            for order in (0, 1):
+                hs = {}
+                for which in ((("p", "q") if order == 0 else ("q", "p"))):
+                    if which == "p":
+                        hs["p"] = hash_of(vp)
+                    else:
+                        pl = qbase
+                        for g, v in zip(qkeys, vq):
+                            pl = (pl & ~(((1 << g.len) - 1) << g.off)) | ((v & ((1 << g.len) - 1)) << g.off)
+                        try:
+                            mq = qfn(pl)
+                            mq.add_data(1, 2, 3, None, None, True, b"")
+                            hs["q"] = mq.hash if mq.id != p.id else None
+                        except Exception:
+                            hs["q"] = None
+                if hs.get("p") is not None and hs.get("p") == hs.get("q"):
+                    return True, "%s and %s (same PGN, key values %r) share hash %s" % (p.id, q.id, vp, hs["p"])
     for vals in itertools.product(cands, repeat=min(len(keys), 3)):
         vals = list(vals) + [0] * (len(keys) - len(vals))
         vals = [v & ((1 << f.len) - 1) for v, f in zip(vals, keys)]
